@@ -525,3 +525,8 @@ _add(
     "C27",
     m("export-synonym-not-added-in-validate", T, "        if \"cache\" in self._export_options:\n            self._export_options.add(\"cache_scope\")\n", "", "C27.6"),
 )
+_add(
+    "C31",
+    m("put-skips-on-existence-alone", "redun/backends/value_store.py", "        if self.has(value_hash) and self.size(value_hash) == len(data):", "        if self.has(value_hash):", "C31.4"),
+    m("no-store-raises-for-placeholder", D, "            # No ValueStore is configured, so the offloaded data is unavailable.\n            return b\"\", False", "            raise AssertionError(\"ValueStore is not defined.\")", "C31.4"),
+)
